@@ -305,6 +305,9 @@ def main(argv):
             "smt_sat": sum(r["smt_sat"] for r in results.values()),
             "smt_unsat": sum(r["smt_unsat"] for r in results.values()),
             "smt_unknown": sum(r["smt_unknown"] for r in results.values()),
+            "nonlinear_products_case_split": sum(r.get("nonlinear_splits", 0) for r in results.values()),
+            "solver_second_opinions": sum(r.get("solver_disagreements", 0) for r in results.values()),
+            "alternatives_discarded_as_infeasible": sum(r.get("discarded_prefixes", 0) for r in results.values()),
             "cover_goals": dict(covers),
             "cover_goals_required": list(req),
             "cover_goals_missing": missing_cover,
